@@ -2079,6 +2079,9 @@ def decode_can_helper(ea, float_factory, ignore_cluster_info):
                 db.fd_baudrate = int(fd_baudrate_elem.text, 0)
 
             can_frame_trig = ea.selector(cc, "/CAN-PHYSICAL-CHANNEL//CAN-FRAME-TRIGGERING")
+            if not can_frame_trig:
+                # AUTOSAR 3 (also what dump(arVersion="3.x") writes) calls the element PHYSICAL-CHANNEL
+                can_frame_trig = ea.selector(cc, "/PHYSICAL-CHANNEL//CAN-FRAME-TRIGGERING")
 
         multiplex_translation = {}  # type: typing.Dict[str, str]
         for frameTrig in can_frame_trig:  # type: _Element
